@@ -232,12 +232,13 @@ namespace
       const std::string status_path = out + ".status";
       int sfd = ::open( status_path.c_str(), O_RDWR | O_CREAT | O_TRUNC, 0644 );
       volatile std::uint64_t* status = nullptr;
-      if( sfd >= 0 && ::ftruncate( sfd, 16 ) == 0 ) {
-         void* p = ::mmap( nullptr, 16, PROT_READ | PROT_WRITE, MAP_SHARED, sfd, 0 );
+      if( sfd >= 0 && ::ftruncate( sfd, 24 ) == 0 ) {
+         void* p = ::mmap( nullptr, 24, PROT_READ | PROT_WRITE, MAP_SHARED, sfd, 0 );
          if( p != MAP_FAILED ) {
             status = static_cast< volatile std::uint64_t* >( p );
             status[ 0 ] = ~0ULL;
             status[ 1 ] = 0;
+            status[ 2 ] = 0;  // heartbeat: the worker is walking its index range (also while it only skips other binaries' jobs)
             g_status = status;
          }
       }
@@ -256,6 +257,9 @@ namespace
       for( std::uint64_t i = begin; i < end; ++i ) {
          if( i % stride != offset ) {
             continue;
+         }
+         if( status && ( ( i / stride ) & 1023 ) == 0 ) {
+            status[ 2 ] = status[ 2 ] + 1;
          }
          const Job j = make_job( check, seed, i, thorough );
          if( !job_runnable( j ) || ( only_set != 0 && int( j.set ) != only_set ) ) {
